@@ -17,8 +17,10 @@ import (
 
 // Int63Hook, when non-nil, supplies the next value of Int63. It returns ok=false to
 // decline (the real generator is used). The hook is process-global while explorers run
-// replays on many goroutines in parallel; a hook that needs per-replay state looks it
-// up by GoID() (the shimmed code calls Int63 synchronously on the caller's goroutine).
+// replays on many goroutines in parallel: a hook that needs per-replay state either
+// serialises the calls that reach it (the caller holds a mutex around the shimmed call
+// and publishes "whose turn it is"), or looks the replay up by GoID() (slow, see there).
+// The shimmed code calls Int63 synchronously on the caller's goroutine.
 var Int63Hook func() (v int64, ok bool)
 
 // Int63 mirrors math/rand.Int63.
@@ -31,7 +33,10 @@ func Int63() int64 {
 	return rand.Int63()
 }
 
-// GoID returns the id of the calling goroutine (parsed from the stack header; ~1 µs).
+// GoID returns the id of the calling goroutine, parsed from the header of runtime.Stack.
+// runtime.Stack walks and formats the whole stack under the runtime's global print lock:
+// several µs per call and a serialisation point for parallel workers - do not call it on
+// a hot path.
 func GoID() int64 {
 	var buf [64]byte
 	n := runtime.Stack(buf[:], false)
